@@ -307,7 +307,16 @@ func runRS(c *ctx, cfg rcfg, data []byte, spec, tail, ops string) {
 	var ms wsflate.MessageState
 	rd := newReader(src, cfg, &evs, &ms)
 	var outs []string
+	var done []string
 	for _, op := range strings.Split(ops, ",") {
+		// documented usage: NextFrame() only after all bytes of the current message were received or
+		// discarded. A script that would advance over an unfinished message discards it first.
+		if op == "n" && (!rd.VerifFrameNil() || rd.State.Fragmented()) {
+			err := rd.Discard()
+			outs = append(outs, "d:"+readErrClass(err))
+			done = append(done, "d")
+		}
+		done = append(done, op)
 		switch {
 		case op == "n":
 			h, err := rd.NextFrame()
@@ -325,10 +334,15 @@ func runRS(c *ctx, cfg rcfg, data []byte, spec, tail, ops string) {
 			}
 			buf := make([]byte, k)
 			n, err := rd.Read(buf)
+			if n > len(buf) {
+				// the io.Reader contract (0 <= n <= len(p)) is broken: report it as an observation
+				outs = append(outs, "r:"+hx(buf)+":overrun"+strconv.Itoa(n))
+				continue
+			}
 			outs = append(outs, "r:"+hx(buf[:n])+":"+readErrClass(err))
 		}
 	}
-	c.emit("RS %s %s %s %s %s -> %s %s %d %d", cfg.tok(), hx(data), spec, tail, ops, strings.Join(outs, ","), eventsTok(evs),
+	c.emit("RS %s %s %s %s %s -> %s %s %d %d", cfg.tok(), hx(data), spec, tail, strings.Join(done, ","), strings.Join(outs, ","), eventsTok(evs),
 		src.consumed, b2i(ms.IsCompressed()))
 }
 
